@@ -134,7 +134,7 @@ class C10(Check):
             lambda t: dict(t[0], **({"indentation": t[1]} if t[1] else {})))
 
     def examples(self, tier):
-        return 75 if tier == "quick" else 3500
+        return 45 if tier == "quick" else 3500
 
     # ------------------------------------------------------------------
 
